@@ -1,6 +1,6 @@
 SPECIFICATION Spec
 CONSTANTS
- Small = FALSE
+ Small = TRUE
  Msgs <- MCMsgs
  RL = 0
  MaxLoss = 2
